@@ -128,6 +128,23 @@ func (e *specEnv) goalSkolem(x Expr, sk *[]string) string {
 			return "(=> " + e.term(e.eval(n.X, tBool), tBool) + " " + e.goalSkolem(n.Y, sk) + ")"
 		}
 	case *EQuant:
+		if n.Forall && n.Lo == nil && !n.Sum {
+			// typed universal goal: a fresh constant of the type stands for the bound variable, so
+			// that existentials underneath get their candidate witnesses
+			if ty, err := e.resolveType(n.Type); err == nil {
+				k := u.declConst("skv_"+n.Var, u.sortOf(ty))
+				if u.collectKeys {
+					// typed universal hypotheses are instantiated at this constant too
+					u.keyCands = append(u.keyCands, keyCand{ty, k})
+				}
+				inner := e.with(n.Var, Val{t: k, typ: ty})
+				body := inner.goalSkolem(n.Body, sk)
+				if ti := u.typeInvariant(k, ty, 0); ti != "" {
+					return "(=> " + ti + " " + body + ")"
+				}
+				return body
+			}
+		}
 		if n.Forall && n.Lo != nil {
 			lo, hi := e.eval(n.Lo, tInt), e.eval(n.Hi, tInt)
 			if lo.lit != nil && hi.lit != nil {
@@ -148,7 +165,20 @@ func (e *specEnv) goalSkolem(x Expr, sk *[]string) string {
 	if n, ok := x.(*EQuant); ok && !n.Forall && !n.Sum && n.Lo != nil && len(e.u.witnesses) > 0 {
 		parts := []string{e.term(e.eval(x, tBool), tBool)}
 		seen := map[string]bool{}
-		for _, w := range e.u.witnesses {
+		// candidate witnesses: those of the existential hypotheses, and the two ends of the range
+		// (the element just appended is the last one)
+		cands := append([]string{}, e.u.witnesses...)
+		func() {
+			defer func() { recover() }()
+			lo := e.term(e.eval(n.Lo, tInt), tInt)
+			hi := e.term(e.eval(n.Hi, tInt), tInt)
+			if e.u.mode.BV {
+				cands = append(cands, lo, "(bvsub "+hi+" "+e.u.mode.idxLit(1)+")")
+			} else {
+				cands = append(cands, lo, "(- "+hi+" 1)")
+			}
+		}()
+		for _, w := range cands {
 			if seen[w] {
 				continue
 			}
@@ -180,14 +210,27 @@ func (e *specEnv) goal(x Expr) (g string, extra []string, err error) {
 	e.u.collectKeys = true
 	g = e.goalSkolem(x, &sk)
 	e.u.collectKeys = false
+	// typed universal hypotheses at the keys of the goal; the witnesses of existentials inside
+	// these instances become candidates for the goal's own existentials (second pass below)
+	e.u.witnesses = nil
+	e.u.collectW = true
+	keyInst := e.u.keyInstances()
+	e.u.collectW = false
+	keyWit := e.u.witnesses
 	defer func() {
 		if err == nil {
-			for _, l := range e.u.keyInstances() {
+			for _, l := range keyInst {
 				extra = append(extra, plusMark+l)
 			}
 		}
 	}()
 	if len(sk) == 0 && len(e.u.extraCands) == 0 {
+		if len(keyWit) > 0 {
+			e.u.witnesses = keyWit
+			var sk2 []string
+			g = e.goalSkolem(x, &sk2)
+			e.u.witnesses = nil
+		}
 		return g, nil, nil
 	}
 	at := append([]string{}, sk...)
@@ -218,7 +261,7 @@ func (e *specEnv) goal(x Expr) (g string, extra []string, err error) {
 			at = append(at, "("+gs+" "+k+")")
 		}
 	}
-	e.u.witnesses = nil
+	e.u.witnesses = append([]string{}, keyWit...)
 	e.u.collectW = true
 	extra = e.u.instancesAt(at)
 	e.u.collectW = false
@@ -312,7 +355,7 @@ func (u *Unit) keyInstances() []string {
 					continue
 				}
 				inner := h.env.with(h.q.Var, Val{t: c.term, typ: ty})
-				body := inner.term(inner.eval(h.q.Body, tBool), tBool)
+				body := inner.instTerm(h.q.Body, nil, 1)
 				g := h.guard
 				if ti := u.typeInvariant(c.term, ty, 0); ti != "" {
 					g = andTerm(g, ti)
